@@ -215,6 +215,7 @@ Inductive lop :=
 | LQuit (i : nat)             (* POP3: send QUIT, read the reply, do not wait for the connection to close *)
 | LEnd (i : nat)              (* wait for the server to close the connection, look at the mailbox *)
 | LAcceptHold (i : nat) (p : proto)   (* connect while the serve goroutine is held between the kernel's accept and wg.Add *)
+| LUpgrade (i : nat)          (* POP3 STLS in AUTHORIZATION state: +OK, then the TLS handshake on the same connection *)
 | LBusy (i : nat)             (* the client keeps session i busy (NOOP after NOOP) for a while *)
 | LPlain                      (* a client that fails the TLS handshake of a ForceTLS POP3 server *)
 | LGate                       (* the store's RemoveMessage now blocks … *)
@@ -375,6 +376,13 @@ Definition lstep (w : world) (o : lop) : world * lobs :=
       match wrun w PPop3 [Accept i; Begin i; Abort i; Exit i] with
       | Some w' => (w', XDropped)
       | None => (w, XRefused)
+      end
+  | LUpgrade i =>
+      (* session-internal: the connection is wrapped, the protocol position stays; like every session step it
+         has no access to the context or the listener *)
+      match find_s i (ss (wp w)) with
+      | Some s => match ph s with Greeted | PUser => (w, XOk) | _ => (w, XQ) end
+      | None => (w, XQ)
       end
   | LBusy i =>
       (* NOOPs change nothing; the session answers each of them *)
@@ -557,6 +565,12 @@ Fixpoint loracle_go (all : list lop) (k : nat) (ops : list lop) (os : list lobs)
           | LPlain =>
               if down then (if lobs_eqb x XRefused then next down bs else (LVAcceptedAfterShutdown k, os'))
               else if lobs_eqb x XDropped then next down bs else (LVSessionDisturbed k, os')
+          | LUpgrade i =>
+              match find_b i bs with
+              | Some b => if b_open b then (if lobs_eqb x XOk then next down bs else (LVSessionDisturbed k, os'))
+                          else next down bs
+              | None => next down bs
+              end
           | LBusy i =>
               match find_b i bs with
               | Some b => if b_open b then
